@@ -298,7 +298,7 @@ Lemma sysret_cases : forall name w k w',
   sysret name w = (k, w') ->
   (exists o w1, pull w = (o, w1) /\
      ((o = None /\ k = KNone /\ w' = w1) \/
-      (exists l what, o = Some l /\ k = KNone /\ w' = desync what w1) \/
+      (exists l what, o = Some l /\ k = KNone /\ w' = desync what w1 /\ sym_eqb what "fuel" = false) \/
       (exists n rest, o = Some ("r", ASym name :: AInt n :: rest) /\ k = kres_of n rest /\ w' = w1))).
 Proof.
   intros name w k w' Hs. unfold sysret in Hs.
@@ -306,14 +306,14 @@ Proof.
   destruct o as [l|]; [|inversion Hs; subst; auto].
   right. destruct l as [ln la].
   destruct (String.eqb_spec ln "r") as [->|Hne].
-  - destruct la as [|[z|b|nm] la]; try solve [inversion Hs; subst; left; eauto].
-    destruct la as [|[n|b|s2] rest]; try solve [inversion Hs; subst; left; eauto].
+  - destruct la as [|[z|b|nm] la]; try solve [inversion Hs; subst; left; do 2 eexists; repeat split; reflexivity].
+    destruct la as [|[n|b|s2] rest]; try solve [inversion Hs; subst; left; do 2 eexists; repeat split; reflexivity].
     destruct (sym_eqb nm name) eqn:Hnm; cbn [negb] in Hs.
     + apply String.eqb_eq in Hnm. subst nm. right. exists n, rest. unfold kres_of.
       destruct (n <? 0).
       * destruct rest as [|[z|b|e] rest']; inversion Hs; subst; auto.
       * inversion Hs; subst; auto.
-    + inversion Hs; subst. left; eauto.
+    + inversion Hs; subst. left; do 2 eexists; repeat split; reflexivity.
   - left. exists (ln, la), "expected-r".
     assert (Hk : (k, w') = (KNone, desync "expected-r" w1)).
     { rewrite <- Hs. destruct ln as [|a ln]; [reflexivity|].
@@ -353,7 +353,7 @@ Proof.
   { intros c s l s' [Hc Hf] Ha. split; [eapply Hst; eauto|exact Hf]. }
   destruct (sysret_cases _ _ _ _ Hs) as [o [w1 [Hp Hc]]].
   pose proof (Inv_pull Rel1 Hst1 _ _ _ H1 Hp) as HP.
-  destruct Hc as [[-> [-> ->]]|[[l [what [-> [-> ->]]]]|[n [rest [-> [-> ->]]]]]].
+  destruct Hc as [[-> [-> ->]]|[[l [what [-> [-> [-> _]]]]]|[n [rest [-> [-> ->]]]]]].
   - right. split; [reflexivity|exact HP].
   - right. split; [reflexivity|]. eapply Inv_desync; eauto.
   - left. split; [|eauto]. eapply Inv_weaken; [exact HP|].
@@ -366,7 +366,7 @@ Proof.
   intros name w k w' H Hs.
   destruct (sysret_cases _ _ _ _ Hs) as [o [w1 [Hp Hc]]].
   pose proof (Any_pull_gen _ _ _ _ H Hp) as H1.
-  destruct Hc as [[-> [-> ->]]|[[l [what [-> [-> ->]]]]|[n [rest [-> [-> ->]]]]]]; auto.
+  destruct Hc as [[-> [-> ->]]|[[l [what [-> [-> [-> _]]]]]|[n [rest [-> [-> ->]]]]]]; auto.
   eapply Inv_desync. apply (H1 (fun _ _ => True)).
 Qed.
 
